@@ -228,3 +228,17 @@ c14_mm256_prefix_load_ps = _c14("mm256_prefix_load_ps")
 c14_mm256_fmadd_ps_broadcast = _c14("mm256_fmadd_ps_broadcast")
 c14_prefetch = _c14("prefetch")
 c14_mm512_mask_add_ps = _c14("mm512_mask_add_ps")
+
+
+def c06_lift_scope_else_branch(sig, case):
+    """lift_scope of an if out of the then-branch of an if that has an else-branch: the else-branch C
+    is copied under both branches of the lifted if; a cursor to a statement of C is forwarded
+    onto the position of the old outer if (where the lifted if now stands) instead of to a copy
+    of C or to 'invalid'"""
+    if sig.get("op") != "lift_scope" or sig.get("monitor") != "forward" or sig.get("kind") not in ("wrong_stmt", "block_lost_member", "gap_wrong_anchor"):
+        return False
+    d = (case or {}).get("detail") or {}
+    path = d.get("path") or []
+    fwd = d.get("fwd_path")
+    # the cursor sits directly in an else-branch and was forwarded to the statement that owns that branch
+    return bool(path) and path[-1][0] == "orelse" and fwd is not None and [list(x) for x in fwd] == [list(x) for x in path[:-1]]
